@@ -183,11 +183,9 @@ def calcTne (o : GroupOps G) (pk : PubKey G) (u r : List (String × Int)) (mj al
 def unrevealedOf (schema nonSchema revealed : List String) : List String :=
   ((schema ++ nonSchema.filter (fun a => !schema.contains a))).filter fun a => !revealed.contains a
 
-/-- `ProofVerifier::_verify_equality` -/
-def verifyEquality (o : GroupOps G) (pk : PubKey G) (p : EqProof G) (c : Int)
+/-- `ProofVerifier::_verify_equality` after the range check on `ê` -/
+def verifyEqualityCore (o : GroupOps G) (pk : PubKey G) (p : EqProof G) (c : Int)
     (unrevealed : List String) : Outcome G :=
-  -- `proof.e.is_negative() || proof.e.num_bits() > LARGE_ETILDE + 1` ⇒ ProofRejected
-  if p.e < 0 ∨ p.e ≥ (2 : Int) ^ (Gen.LARGE_ETILDE + 1) then .err else
   (calcTeq o pk p.aPrime p.e p.v p.m p.m2 unrevealed).bind fun t1 =>
   (o.pow p.aPrime ((2 : Int) ^ Gen.largeEStartValueExp)).bind fun r0 =>
   (mulPows o pk.r p.revealed (keys p.revealed) r0).bind fun rar =>
@@ -195,6 +193,13 @@ def verifyEquality (o : GroupOps G) (pk : PubKey G) (p : EqProof G) (c : Int)
   (o.inv (o.mul pk.z rari)).bind fun zri =>
   (o.pow zri c).bind fun t2 =>
     .ok (o.mul t1 t2)
+
+/-- `ProofVerifier::_verify_equality`:
+    `proof.e.is_negative() || proof.e.num_bits() > LARGE_ETILDE + 1` ⇒ ProofRejected -/
+def verifyEquality (o : GroupOps G) (pk : PubKey G) (p : EqProof G) (c : Int)
+    (unrevealed : List String) : Outcome G :=
+  if p.e < 0 ∨ p.e ≥ (2 : Int) ^ (Gen.LARGE_ETILDE + 1) then .err
+  else verifyEqualityCore o pk p c unrevealed
 
 /-- the loop `tau_list[i] = (T_i^c)⁻¹ · tau_list[i]` of `_verify_ne_predicate` -/
 def neAdjust (o : GroupOps G) (t : List (String × G)) (c : Int) :
